@@ -13,12 +13,12 @@ from sa.srcmodel import Program
 META = {
     "technique": "interprocedural exception-escape analysis: catalogue of partial operations and explicit raises, handler "
     "subtraction with the real exception hierarchy, name/receiver-typed call resolution with dynamic-dispatch edges "
-    "(nodes, expressions, tags, registered filters, lexer states), fixpoint to the public entry points; catalogue sites that depend on declared types (annotation-driven type approximation), list-length lower-bound dataflow for pop(), interval-kind abstract interpretation for islice bounds",
+    "(nodes, expressions, tags, registered filters, lexer states), fixpoint to the public entry points; catalogue sites that depend on declared types (annotation-driven type approximation), list-length lower-bound dataflow for pop(), interval-kind abstract interpretation for islice bounds; sibling agreement of __iter__/__getitem__ key domains on every Mapping subclass (the abc mixins)",
     "level_text": "Decides that no exception class outside LiquidError raised by a catalogued partial operation (int/float/"
     "Decimal conversion, ceil/floor/round, division, %-formatting, islice, next, constant-index reads, encode/decode, "
     "base64, timestamps, explicit raise/assert; str()/repr()/format()/f-string/escape() of a value declared object/Any (int/str digit limit), list.pop() on a list not proven non-empty, hashing of a value declared object/Any by `in`, islice bounds not proven within [0, k*len]) can propagate from its site through any call chain to "
     "Environment.from_string/parse/tokenize/get_template*, Template.render*/analyze* or extract_from_template, and "
-    "that str()/detailed_message()/context() of a LiquidError reach no such site at all (every LiquidError built in liquid2 gets a str/None/exception message). One uncovered site is one "
+    "that str()/detailed_message()/context() of a LiquidError reach no such site at all (every LiquidError built in liquid2 gets a str/None/exception message), and that no Mapping subclass of liquid2 lets the collections.abc mixins index it with a key its __getitem__ rejects (KeyError from `for x in drop` / `drop == y`). One uncovered site is one "
     "input that escapes. The time bound, RecursionError and exceptions raised inside user drops are not decided.",
     "level_note": "Trusted base: the partial-operation catalogue (printed in the evidence) and the exemption table "
     "(one named site + reason each); callee resolution over-approximates inside liquid2 and treats third-party "
@@ -235,6 +235,8 @@ def run(prog: Program, res: Result) -> None:  # noqa: PLR0912, PLR0915
         else:
             res.ok("C02.R4", f"{f.file}:{c.lineno} {f.qualname}", what, "non-empty, guarded by the token kind")
 
+    _mapping_protocol_rule(prog, res)
+    _cast_belief_rule(prog, res)
     # ------------------------------------------------------------------ R3 boundary converters
     res.rule("C02.R3", "Filter.evaluate[_async] wraps the dynamic filter call in a handler converting (TypeError, ValueError, ArithmeticError, LookupError, AttributeError) to LiquidTypeError; render_with_context converts stray LiquidInterrupts")
     flt = prog.mod("liquid2/builtin/expressions.py").classes.get("Filter")
@@ -281,6 +283,115 @@ def run(prog: Program, res: Result) -> None:  # noqa: PLR0912, PLR0915
             res.ok("C02.R3", f"{m.file}:{m.node.lineno} Template.{nm}", what, "default partial=False")
         else:
             res.fail("C02.R3", file="liquid2/template.py", line=m.node.lineno if m else 0, qualname=f"Template.{nm}", construct="partial=True at an entry point", message="the top-level render passes partial=True: loop interrupts escape", what=what)
+
+
+def _mapping_protocol_rule(prog: Program, res: Result) -> None:
+    """C02.R5: the Mapping mixins (`keys/items/values/__eq__`, `dict(m)`) read `m[k] for k in iter(m)`. If `__getitem__` raises
+    KeyError for keys outside a domain D, `__iter__` may only yield members of D - or the class supplies keys/items/values itself."""
+    res.rule("C02.R5", "every Mapping subclass whose __getitem__ can raise KeyError iterates exactly the keys __getitem__ accepts (or overrides keys/items/values without iterating itself): the abc mixins reached from `for x in obj`, `==`, `dict(obj)` cannot raise KeyError")
+    n = 0
+    for ci in sorted(prog.all_classes(), key=lambda c: c.full):
+        if not any(b.split(".")[-1] in ("Mapping", "MutableMapping") for b in ci.ext_bases) and not any(x.split("[")[0].split(".")[-1] in ("Mapping", "MutableMapping") for x in ci.base_exprs):
+            continue
+        gi, it = ci.methods.get("__getitem__"), ci.methods.get("__iter__")
+        if gi is None or it is None:
+            continue
+        n += 1
+        site = f"{ci.file}:{ci.node.lineno} {ci.qualname}"
+        what = f"{ci.qualname}: __iter__ yields only keys __getitem__ accepts"
+        raises_key = any(isinstance(r, ast.Raise) and r.exc is not None and norm(r.exc).startswith("KeyError") for r in ast.walk(gi.node))
+        if not raises_key:
+            res.ok("C02.R5", site, what, "__getitem__ never raises KeyError itself")
+            continue
+        key = gi.node.args.args[1].arg if len(gi.node.args.args) > 1 else "key"
+        dom_attr: set[str] = set()
+        dom_const: set[object] = set()
+        for t in ast.walk(gi.node):
+            if isinstance(t, ast.Compare) and len(t.ops) == 1 and isinstance(t.left, ast.Name) and t.left.id == key:
+                rhs = t.comparators[0]
+                if isinstance(t.ops[0], (ast.In, ast.NotIn)):
+                    if isinstance(rhs, (ast.Tuple, ast.List, ast.Set)) and all(isinstance(e, ast.Constant) for e in rhs.elts):
+                        dom_const |= {e.value for e in rhs.elts}  # type: ignore[attr-defined]
+                    else:
+                        dom_attr.add(norm(rhs))
+                elif isinstance(t.ops[0], (ast.Eq, ast.NotEq)) and isinstance(rhs, ast.Constant):
+                    dom_const.add(rhs.value)
+            if isinstance(t, (ast.For, ast.AsyncFor)) and any(isinstance(x, ast.Subscript) and isinstance(x.slice, ast.Name) and x.slice.id == key and norm(x.value) == norm(t.target) for x in ast.walk(t)):
+                dom_attr.add(norm(t.iter))  # chained lookup: for m in self._maps: m[key]
+        rets = [r.value for r in ast.walk(it.node) if isinstance(r, ast.Return) and r.value is not None]
+        ylds = [y for y in ast.walk(it.node) if isinstance(y, (ast.Yield, ast.YieldFrom))]
+        problems = []
+        if not rets and not ylds:
+            problems.append("__iter__ returns nothing recognisable")
+        for v in rets + [y.value for y in ylds if isinstance(y, ast.YieldFrom)]:
+            ok = False
+            if isinstance(v, ast.Call) and isinstance(v.func, ast.Name) and v.func.id == "iter" and len(v.args) == 1:
+                a = v.args[0]
+                if isinstance(a, (ast.List, ast.Tuple, ast.Set)) and all(isinstance(e, ast.Constant) and e.value in dom_const for e in a.elts):
+                    ok = True
+                elif norm(a) in dom_attr:
+                    ok = True
+            elif isinstance(v, ast.Call) and norm(v.func).split(".")[-1] == "chain" and len(v.args) == 1 and isinstance(v.args[0], ast.Starred) and norm(v.args[0].value) in dom_attr:
+                ok = True
+            elif v is not None and norm(v) in dom_attr:
+                ok = True
+            if not ok:
+                problems.append(f"__iter__ hands out `{norm(v)[:40]}`, which is not the key domain of __getitem__ ({', '.join(sorted(dom_attr) + sorted(map(repr, dom_const))) or 'unrecognised'})")
+        for y in ylds:
+            if isinstance(y, ast.Yield):
+                problems.append("__iter__ yields element-wise (not decided)")
+        if problems:
+            # escape hatch: the class supplies the three views itself, none of which iterates self
+            own = [ci.methods.get(m) for m in ("keys", "items", "values")]
+            if all(o is not None for o in own) and not any(
+                (isinstance(x, (ast.For, ast.comprehension)) and norm(x.iter) == "self") or (isinstance(x, ast.Call) and norm(x.func) in ("iter", "list", "dict", "tuple") and x.args and norm(x.args[0]) == "self") or (isinstance(x, ast.Call) and norm(x.func).startswith("super()"))
+                for o in own for x in ast.walk(o.node)  # type: ignore[union-attr]
+            ):
+                res.ok("C02.R5", site, what, "keys/items/values are the class's own and never iterate self; __eq__ and dict() go through them")
+                continue
+            res.fail("C02.R5", file=ci.file, line=it.node.lineno, qualname=f"{ci.qualname}.__iter__", construct=f"{ci.qualname}.__iter__ vs __getitem__: {problems[0]}", message=f"{ci.qualname} is a Mapping whose {problems[0]}: Mapping.items()/values()/__eq__ index self with whatever __iter__ yields, so `for x in obj` / `obj == obj` in a template raises a bare KeyError", what=what)
+        else:
+            res.ok("C02.R5", site, what, "same key domain")
+    res.floor("C02.R5", "Mapping subclasses with __getitem__ and __iter__", n, 4)
+
+
+_CAST_POSITIVE = """
+def f(context):
+    return cast(Translations, context.base_globals.get('translations', None))
+def g(context):
+    t = context.base_globals.get('translations', None)
+    if not isinstance(t, Translations):
+        raise LiquidTypeError('x', token=None)
+    return t
+"""
+
+
+def _casts_of_context_data(tree: ast.AST) -> list[ast.Call]:
+    """`cast(T, e)` where e reads render-time data through a `context` object: a stated belief about caller data."""
+    out = []
+    for c in ast.walk(tree):
+        if isinstance(c, ast.Call) and norm(c.func).split(".")[-1] == "cast" and len(c.args) == 2:
+            if any(isinstance(x, ast.Name) and x.id in ("context", "ctx", "render_context") for x in ast.walk(c.args[1])):
+                out.append(c)
+    return out
+
+
+def _cast_belief_rule(prog: Program, res: Result) -> None:
+    res.rule("C02.R6", "no typing.cast() of a value read from the render context (caller data) to a class or protocol: a cast is an unchecked belief, and the method calls that follow raise AttributeError/TypeError on data of another shape; such values are narrowed with isinstance instead")
+    pos = _casts_of_context_data(ast.parse(_CAST_POSITIVE))
+    if len(pos) != 1:
+        raise AnalysisError("C02.R6 positive example no longer matches exactly once")
+    n_cast = 0
+    seen: set[int] = set()
+    for fi in sorted(prog.all_functions(), key=lambda f: -f.node.lineno):  # innermost definitions first
+        for c in ast.walk(fi.node):
+            if isinstance(c, ast.Call) and norm(c.func).split(".")[-1] == "cast" and len(c.args) == 2 and id(c) not in seen:
+                seen.add(id(c))
+                n_cast += 1
+                if c in _casts_of_context_data(c):
+                    what = f"{fi.qualname}: cast({norm(c.args[0])}, <context data>)"
+                    res.fail("C02.R6", file=fi.file, line=c.lineno, qualname=fi.qualname, construct=f"cast({norm(c.args[0])}, {norm(c.args[1])[:60]})", message=f"{fi.qualname} casts a value read from the render context to {norm(c.args[0])} without testing it: data of another shape under that name (e.g. `translations=[…]`) makes the following method call raise a bare AttributeError", what=what)
+    res.ok("C02.R6", "liquid2/**", f"{n_cast} cast() calls inspected; none applied to render-context data", "positive example matched once")
 
 
 def _all_sites(E: Escapes, fi):  # noqa: ANN001, ANN202
